@@ -314,6 +314,18 @@ def real_scripts(seed, n):
             sc["cfg"]["maxAttempts"] = max(2, sc["cfg"]["maxAttempts"])
             out.append(sc)
             k += 1
+    # the broker stops reading one connection (receive window closed) right after an acknowledged request: the next produce request
+    # stalls in its WRITE phase until the attempt times out, is retried on a new connection, later batches follow; then the stalled
+    # connection drains.  Nothing of the abandoned request may reach the log any more (C07: no copy of an earlier batch after a later one)
+    for pv in (2, 3, 7):
+        for nlater in (1, 2):
+            steps = [{"op": "hold", "gate": "unstall:t/0"}]
+            for c in range(1, 3 + nlater):
+                steps += [{"op": "call", "c": c, "g": 1, "msgs": [{"sz": 40, "topic": "", "p": 0}]}, {"op": "waitcall", "c": c}]
+            steps += [{"op": "sleep", "ms": 50}, {"op": "release", "gate": "unstall:t/0"}, {"op": "sleep", "ms": 300}]
+            out.append({"id": "W-write-stall-v%d-%d" % (pv, nlater), "outcomes": {"t/0": ["okStall"]}, "steps": steps,
+                        "cfg": {"batchSize": 1, "batchBytes": 100000, "maxAttempts": 3, "acked": True, "async": False, "topic": "t", "nparts": {"t": 1},
+                                "batchTimeoutMs": 5, "compression": 0, "net": "real", "produceVersion": pv, "writeTimeoutMs": 150}})
     return out + [real_script(rng, "W%d-%d" % (seed, k)) for k in range(n)]
 
 
@@ -518,11 +530,12 @@ def real_part(ctx, invs, aprops, cuts):
     acknowledgement at every byte (C17), else the seeded scenarios plus a sample of that family."""
     n = 40 if ctx.tier == "quick" else 600
     allsc = real_scripts(ctx.seed, n)
-    cutsc = [s for s in allsc if s["id"].startswith("W-cut-")]
+    cutsc = [s for s in allsc if s["id"].startswith("W-cut-") or s["id"].startswith("W-write-stall")]
     if cuts:
         scripts = cutsc
     else:
-        scripts = [s for s in allsc if not s["id"].startswith("W-cut-")] + (cutsc[::8] if ctx.tier == "quick" else cutsc)
+        scripts = [s for s in allsc if s not in cutsc] + (cutsc[::8] if ctx.tier == "quick" else cutsc) + [s for s in cutsc if s["id"].startswith("W-write-stall")]
+    scripts = list({s["id"]: s for s in scripts}.values())
     traces = [derive_retriable(t) for t in run_scripts(ctx, scripts, "real")]
     checked = monitor(ctx, scripts, traces, invs, aprops)
     accepted, divs = conformance(ctx, traces)
